@@ -21,6 +21,9 @@ type caseXZ struct {
 	Data gen.Recipe    `json:"data"`
 	Part gen.Partition `json:"part"`
 	Tail []string      `json:"tail,omitempty"` // close | write0 | write
+	// Prior > 0: an earlier writer of the same configuration in the same
+	// process took Prior bytes and was closed (odd) or abandoned (even)
+	Prior int `json:"prior,omitempty"`
 }
 
 func matcherName(m int) string {
@@ -174,6 +177,9 @@ func drawXZCase(t *rapid.T) caseXZ {
 		c.Part = gen.Partition{Kind: "single"}
 	}
 	c.Tail = rapid.SliceOfN(rapid.SampledFrom([]string{"close", "write0", "write"}), 0, 3).Draw(t, "tail")
+	if rapid.IntRange(0, 3).Draw(t, "hasprior") == 0 {
+		c.Prior = rapid.IntRange(1, 20000).Draw(t, "prior")
+	}
 	return c
 }
 
@@ -193,6 +199,16 @@ func runXZWrite(c caseXZ) (*writeResult, *ev.Failure) {
 		panic("generator produced a configuration Verify rejects: " + err.Error())
 	}
 	data := c.Data.Expand()
+	if c.Prior > 0 {
+		// an earlier instance must not influence this one
+		if pw, err := c.Cfg.XZ().NewWriter(io.Discard); err == nil {
+			junk := gen.Recipe{{Kind: "text", K: 7, Len: c.Prior, Seed: uint64(c.Prior)}}.Expand()
+			pw.Write(junk)
+			if c.Prior%2 == 1 {
+				pw.Close()
+			}
+		}
+	}
 	var sink bytes.Buffer
 	w, err := c.Cfg.XZ().NewWriter(&sink)
 	if err != nil {
